@@ -74,6 +74,8 @@ class SList:
         self.length, self.slots = length, list(slots)
 
     def find(self, idx):
+        if isinstance(idx, int) and not isinstance(idx, bool) and idx < 0:
+            idx = z3.simplify(to_z3(self.length, INT) + idx)          # x[-1]: counted from the end
         idx = to_z3(idx, INT)
         for pos in range(len(self.slots) - 1, -1, -1):
             key, val = self.slots[pos]
@@ -753,7 +755,10 @@ class Engine:
         if isinstance(base, SList):
             if isinstance(node.slice, ast.Slice):
                 raise OutOfSubset('slice of a list')
-            idx = to_z3(self.ev(node.slice, st), INT)
+            raw = self.ev(node.slice, st)
+            if isinstance(raw, int) and not isinstance(raw, bool) and raw < 0:
+                raw = z3.simplify(to_z3(base.length, INT) + raw)
+            idx = to_z3(raw, INT)
             self.oblige(st, 'bounds/list:%s' % ast.unparse(node)[:24], z3.And(idx >= 0, idx < to_z3(base.length, INT)), kind='safety')
             return base.slots[base.find(idx)][1]
         return self.np.getitem(self, st, base, node.slice)
@@ -1109,6 +1114,16 @@ class Engine:
                 if isinstance(base, Ref):
                     raise OutOfSubset('a basic slice (numpy view) is bound to a name: %s' % ast.unparse(node)[:60])
         val = self.ev(node.value, st)
+        if isinstance(node.value, ast.List) and node.value.elts and len(node.targets) == 1 and isinstance(node.targets[0], ast.Name) and self._is_grown(node.targets[0].id):
+            # `ci = [None, start]` followed by `ci.append(...)` somewhere in the function: a list object, not an index tuple
+            elems = []
+            for e in val:
+                if isinstance(e, (Row, Mat)):
+                    e = self.np.materialise(self, st, e)
+                if not (e is None or isinstance(e, Ref) or is_z3(e) or isinstance(e, (int, float, fractions.Fraction))):
+                    raise OutOfSubset('list element %r' % (e,))
+                elems.append(e)
+            val = SList(len(elems), [(z3.IntVal(k_), e) for k_, e in enumerate(elems)])
         if isinstance(val, SList) and isinstance(node.value, (ast.Name, ast.Subscript, ast.Attribute)):
             raise OutOfSubset('a list object is bound to a second name: %s' % ast.unparse(node)[:60])
         if isinstance(val, Fork):
@@ -1259,6 +1274,13 @@ class Engine:
         except _NoMerge:
             return None
         return m
+
+    def _is_grown(self, name):
+        cache = self.__dict__.setdefault('_grown', {})
+        if name not in cache:
+            cache[name] = any(isinstance(n, ast.Call) and isinstance(n.func, ast.Attribute) and n.func.attr == 'append' and isinstance(n.func.value, ast.Name) and n.func.value.id == name
+                              for n in ast.walk(self.fd))
+        return cache[name]
 
     def st_Return(self, node, st):
         val = self.ev(node.value, st) if node.value is not None else None
@@ -1415,14 +1437,19 @@ class Engine:
                 # clause len(name) == expr is an invariant obligation like any other) and only its LAST element is known to exist
                 if nm not in lists or not v.slots:
                     raise ContractError('list %s is modified in a loop: the loop contract must declare its length (spec lists)' % nm)
-                ln = z3.simplify(to_z3(self.ev_str(lists[nm], st), INT))
+                decl = lists[nm]
+                lnsrc, ntrail = (decl, 1) if isinstance(decl, str) else decl     # 'h + 1'  or  ('h + 1', number of trailing elements known to exist)
+                ln = z3.simplify(to_z3(self.ev_str(lnsrc, st), INT))
                 last = v.slots[-1][1]
-                if isinstance(last, Ref):
-                    o = st.heap[last.oid]
-                    e = alloc(st, o.ndim, fresh('hv_' + nm, o.term.sort()), o.shape, o.esort)
-                else:
-                    e = fresh('hv_' + nm, BOOL if to_z3(last).sort() == BOOL else REAL)     # a list of numbers: reals (ints embed)
-                st.env[nm] = SList(ln, [(z3.simplify(ln - 1), e)])
+                slots = []
+                for back in range(ntrail, 0, -1):
+                    if isinstance(last, Ref):
+                        o = st.heap[last.oid]
+                        e = alloc(st, o.ndim, fresh('hv_' + nm, o.term.sort()), o.shape, o.esort)
+                    else:
+                        e = fresh('hv_' + nm, BOOL if to_z3(last).sort() == BOOL else REAL)     # a list of numbers: reals (ints embed)
+                    slots.append((z3.simplify(ln - back), e))
+                st.env[nm] = SList(ln, slots)
         for g in ghosts:
             v = st.ghost.get(g)
             if is_z3(v):
@@ -2071,6 +2098,67 @@ def _sb_lemma_agg_compose(eng, st, node):
     return z3.Implies(hyp, concl)
 
 
+def _sb_lemma_agg_compose_g(eng, st, node):
+    """LEMMA (Lean: agg_compose_g_smt = agg_comp + Qrawg_agg_comp): aggregation composes, explicit-divisor quality.
+    lemma_agg_compose_g(W0, cur, Wl, p, new, gamma, sd, N0, n): hypotheses as lemma_agg_compose; conclusion: the aggregate of Wl under p is the
+    aggregate of W0 under new, and Qrawg(Wl, p, gamma, sd) == Qrawg(W0, new, gamma, sd) for the given divisor sd."""
+    W0 = _term2(eng, st, eng.ev(node.args[0], st))
+    cur = _term1i(eng, st, eng.ev(node.args[1], st))
+    Wl = _term2(eng, st, eng.ev(node.args[2], st))
+    p_ = _term1i(eng, st, eng.ev(node.args[3], st))
+    new = _term1i(eng, st, eng.ev(node.args[4], st))
+    g = to_z3(eng.ev(node.args[5], st), REAL)
+    sd = to_z3(eng.ev(node.args[6], st), REAL)
+    N0 = to_z3(eng.ev(node.args[7], st), INT)
+    n = to_z3(eng.ev(node.args[8], st), INT)
+    a, b, x = z3.Ints('a!c b!c x!c')
+    hyp = z3.And(z3.ForAll([a, b], z3.Implies(z3.And(a >= 0, a < n, b >= 0, b < n), z3.Select(z3.Select(Wl, a), b) == agg(W0, cur, a, b, N0))),
+                 z3.ForAll([x], z3.Implies(z3.And(x >= 0, x < N0), z3.And(z3.Select(cur, x) >= 1, z3.Select(cur, x) <= n,
+                                                                          z3.Select(new, x) == z3.Select(p_, z3.Select(cur, x) - 1)))))
+    concl = z3.And(z3.ForAll([a, b], agg(Wl, p_, a, b, n) == agg(W0, new, a, b, N0), patterns=[agg(Wl, p_, a, b, n)]),
+                   Qrawg(Wl, p_, g, sd, n) == Qrawg(W0, new, g, sd, N0))
+    return z3.Implies(hyp, concl)
+
+
+def _sb_lemma_qg_from_aggregate(eng, st, node):
+    """LEMMA (Lean: qg_from_aggregate_smt): if w is the m x m aggregate of W under labels c (1..m) then
+    trace(w) - (gamma * sum(w.w)) / sd is the un-normalised quality Qrawg(W, c, gamma, sd).  lemma_qg_from_aggregate(w, W, c, gamma, sd, m, n)."""
+    w = _term2(eng, st, eng.ev(node.args[0], st))
+    W = _term2(eng, st, eng.ev(node.args[1], st))
+    c = _term1i(eng, st, eng.ev(node.args[2], st))
+    g = to_z3(eng.ev(node.args[3], st), REAL)
+    sd = to_z3(eng.ev(node.args[4], st), REAL)
+    m = to_z3(eng.ev(node.args[5], st), INT)
+    n = to_z3(eng.ev(node.args[6], st), INT)
+    a, b, y = z3.Ints('a!q b!q y!q')
+    hyp = z3.And(z3.ForAll([a, b], z3.Implies(z3.And(a >= 0, a < m, b >= 0, b < m), z3.Select(z3.Select(w, a), b) == agg(W, c, a, b, n))),
+                 z3.ForAll([y], z3.Implies(z3.And(y >= 0, y < n), z3.And(z3.Select(c, y) >= 1, z3.Select(c, y) <= m))))
+    return z3.Implies(hyp, trace1(w, m) - udiv(umul(g, sumdot(w, w, m)), sd) == Qrawg(W, c, g, sd, n))
+
+
+def _sb_lemma_Qrawg_def(eng, st, node):
+    """LEMMA (Lean: Qrawg_def_sum_symm, the definition of Qrawg unfolded for a symmetric matrix): if K[x][y] is the kernel
+    W[x][y] - (gamma * (k[x] * k[y])) / sd on same-label pairs and 0 elsewhere, with k the row sums of the symmetric W, then the sum of K is
+    Qrawg(W, c, gamma, sd).  lemma_Qrawg_def(K, W, c, k, gamma, sd, n); products / quotients in the arithmetic mode of the contract."""
+    K = _term2(eng, st, eng.ev(node.args[0], st))
+    Wv = eng.ev(node.args[1], st)
+    W = _term2(eng, st, Wv)
+    c = _term1i(eng, st, eng.ev(node.args[2], st))
+    kv = eng.ev(node.args[3], st)
+    kt = eng.pure(st.heap[kv.oid].term if isinstance(kv, Ref) else st.heap[eng.np.materialise(eng, st, kv).oid].term)
+    g = to_z3(eng.ev(node.args[4], st), REAL)
+    sd = to_z3(eng.ev(node.args[5], st), REAL)
+    n = to_z3(eng.ev(node.args[6], st), INT)
+    x, y = z3.Ints('x!qd y!qd')
+    inxy = z3.And(x >= 0, x < n, y >= 0, y < n)
+    prod = eng.binop(ast.Mult(), z3.Select(kt, x), z3.Select(kt, y), st)
+    kern = z3.Select(z3.Select(W, x), y) - to_z3(eng.binop(ast.Div(), eng.binop(ast.Mult(), g, prod, st), sd, st), REAL)
+    hyp = z3.And(z3.ForAll([x, y], z3.Implies(inxy, z3.Select(z3.Select(W, x), y) == z3.Select(z3.Select(W, y), x))),
+                 z3.ForAll([x], z3.Implies(z3.And(x >= 0, x < n), z3.Select(kt, x) == sum1(z3.Select(W, x), n))),
+                 z3.ForAll([x, y], z3.Implies(inxy, z3.Select(z3.Select(K, x), y) == z3.If(z3.Select(c, x) == z3.Select(c, y), kern, z3.RealVal(0)))))
+    return z3.Implies(hyp, tsum(K, n) == Qrawg(W, c, g, sd, n))
+
+
 def _sb_lemma_agg_symm(eng, st, node):
     """LEMMA (Lean: agg_symm): the aggregate of a symmetric matrix is symmetric.  lemma_agg_symm(W, c, n)."""
     W = _term2(eng, st, eng.ev(node.args[0], st))
@@ -2405,7 +2493,7 @@ SPEC_BUILTINS = {
     'dot2': _sb_dot2, 'isperm': _sb_isperm, 'same_object': _sb_same_object, 'unchanged': _sb_unchanged,
     'snapshot': _sb_snapshot, 'argref': _sb_argref, 'lam1': _sb_lam1, 'KCf': _sb_KCf, 'KNf': _sb_KNf, 'result_is_empty': _sb_result_is_empty, 'hopsint': _sb_hopsint, 'lam2': _sb_lam2, 'unique_witness': _sb_unique_witness, 'member': _sb_member, 'dset': _sb_dset(dset), 'rset': _sb_dset(rset), 'wset': _sb_dset(wset), 'cntb': _sb_cntb,
     'modsum': _mk_mod(modsum, 3), 'modsumT': _mk_mod(modsumT, 3), 'degsum': _mk_mod(degsum, 2), 'degsumT': _mk_mod(degsumT, 2), 'agg': _mk_mod(agg, 3),
-    'Qmod': _sb_Qmod, 'walk': _sb_walk, 'isint': (lambda eng, st, node: z3.IsInt(to_z3(eng.ev(node.args[0], st), REAL))), 'sdist': _sb_sdist, 'lemma_walks': _sb_lemma_walks, 'Qrawg': _sb_Qrawg, 'umul': _sb_umul, 'lemma_umul_linear': _sb_lemma_umul_linear, 'QrawB': _mk_mod(QrawB, 1), 'tsum': _mk_specfn(tsum, 1), 'csum': _mk_specfn(csum, 2), 'lemma_modularity': _sb_lemma_modularity, 'lemma_knm_sums': _sb_lemma_knm_sums, 'lemma_relabel': _sb_lemma_relabel, 'lemma_relabel_g': _sb_lemma_relabel_g, 'lemma_agg_compose': _sb_lemma_agg_compose, 'lemma_flat_count': _sb_lemma_flat_count, 'rounds_to': _sb_rounds_to, 'where_index': _sb_where_index, 'argsort_inverse': _sb_argsort_inverse, 'exists': _sb_exists, 'lemma_tsum_add': _sb_lemma_tsum_add, 'lemma_tsum_int': _sb_lemma_tsum_int, 'lemma_full_offdiag': _sb_lemma_full_offdiag, 'flat_store_rows': (lambda eng, st, node: st.ghost['_flat_store'][0]), 'flat_store_cols': (lambda eng, st, node: st.ghost['_flat_store'][1]), 'flat_store_len': (lambda eng, st, node: st.ghost['_flat_store'][2]), 'lemma_tsum_plus_transpose': _sb_lemma_tsum_plus_transpose, 'lemma_image_count': _sb_lemma_image_count,
+    'Qmod': _sb_Qmod, 'walk': _sb_walk, 'isint': (lambda eng, st, node: z3.IsInt(to_z3(eng.ev(node.args[0], st), REAL))), 'sdist': _sb_sdist, 'lemma_walks': _sb_lemma_walks, 'Qrawg': _sb_Qrawg, 'umul': _sb_umul, 'lemma_umul_linear': _sb_lemma_umul_linear, 'QrawB': _mk_mod(QrawB, 1), 'tsum': _mk_specfn(tsum, 1), 'csum': _mk_specfn(csum, 2), 'lemma_modularity': _sb_lemma_modularity, 'lemma_knm_sums': _sb_lemma_knm_sums, 'lemma_relabel': _sb_lemma_relabel, 'lemma_relabel_g': _sb_lemma_relabel_g, 'lemma_agg_compose': _sb_lemma_agg_compose, 'lemma_Qrawg_def': _sb_lemma_Qrawg_def, 'lemma_agg_compose_g': _sb_lemma_agg_compose_g, 'lemma_qg_from_aggregate': _sb_lemma_qg_from_aggregate, 'lemma_flat_count': _sb_lemma_flat_count, 'unique_count': (lambda eng, st, node: st.ghost['unique_count_last']), 'rounds_to': _sb_rounds_to, 'where_index': _sb_where_index, 'argsort_inverse': _sb_argsort_inverse, 'exists': _sb_exists, 'lemma_tsum_add': _sb_lemma_tsum_add, 'lemma_tsum_int': _sb_lemma_tsum_int, 'lemma_full_offdiag': _sb_lemma_full_offdiag, 'flat_store_rows': (lambda eng, st, node: st.ghost['_flat_store'][0]), 'flat_store_cols': (lambda eng, st, node: st.ghost['_flat_store'][1]), 'flat_store_len': (lambda eng, st, node: st.ghost['_flat_store'][2]), 'lemma_tsum_plus_transpose': _sb_lemma_tsum_plus_transpose, 'lemma_image_count': _sb_lemma_image_count,
     'frow': (lambda eng, st, node: frow(to_z3(eng.ev(node.args[0], st), INT), to_z3(eng.ev(node.args[1], st), INT))), 'fcol': (lambda eng, st, node: fcol(to_z3(eng.ev(node.args[0], st), INT), to_z3(eng.ev(node.args[1], st), INT))), 'lemma_agg_symm': _sb_lemma_agg_symm, 'lemma_agg_identity': _sb_lemma_agg_identity, 'lemma_q_from_aggregate': _sb_lemma_q_from_aggregate,
     'lemma_masked_degree': _sb_lemma_masked_degree, 'lemma_degree_monotone': _sb_lemma_degree_monotone, 'result': _sb_result, 'raised': _sb_raised, 'shape_is': _sb_shape_is,
 }
